@@ -80,20 +80,21 @@ type Summary struct {
 }
 
 type Run struct {
-	Seed    uint64
-	Tier    string
-	Out     string
-	Rng     *Rng
-	Replay  string
-	ops     *bufio.Writer
-	impl    *bufio.Writer
-	fo, fi  *os.File
-	seen    map[[16]byte]struct{}
-	sum     Summary
-	start   time.Time
-	maxFail int
-	evalIn  string
-	flush   bool
+	Seed     uint64
+	Tier     string
+	Out      string
+	Rng      *Rng
+	Replay   string
+	ops      *bufio.Writer
+	impl     *bufio.Writer
+	fo, fi   *os.File
+	seen     map[[16]byte]struct{}
+	sum      Summary
+	start    time.Time
+	maxFail  int
+	evalIn   string
+	flush    bool
+	nUnknown int
 }
 
 // Pending writes the operation line *before* the real code runs (only in flush mode, which the
@@ -231,7 +232,17 @@ func (r *Run) Fail(what string, replay interface{}) { r.FailKnown(what, "", repl
 
 func (r *Run) FailKnown(what, known string, replay interface{}) {
 	r.Count("oracle-fail")
-	if len(r.sum.Failures) < r.maxFail {
+	if known != "" {
+		// failures of a (possibly) listed class must never use up the slots of unlisted ones
+		r.Count("oracle-fail-class:" + known)
+		if r.sum.Dist["oracle-fail-class:"+known] > 2 {
+			return
+		}
+		r.sum.Failures = append(r.sum.Failures, Failure{What: what, Known: known, Replay: replay})
+		return
+	}
+	r.nUnknown++
+	if r.nUnknown <= r.maxFail {
 		r.sum.Failures = append(r.sum.Failures, Failure{What: what, Known: known, Replay: replay})
 	}
 }
